@@ -7,5 +7,5 @@ import (
 )
 
 func TestProps(t *testing.T) {
-	harness.Main(t, "C04", Encode, EncodeHuge, Decode, Reuse, FromChain, JSONMsg)
+	harness.Main(t, "C04", Encode, EncodeHuge, Decode, Reuse, FromChain, Concurrent, JSONMsg)
 }
